@@ -507,6 +507,9 @@ Definition cbor_marshal (E : tenv) (A : atlas) (t : gtype) (v : gval) : option b
 Definition cbor_marshal_with (fuel : nat) (A : atlas) (t : gtype) (v : gval) : option bytes :=
   match marshal A fuel t v with MOk ts => cbor_encode ts | _ => None end.
 
+Lemma marshal_top_eq E A t v : marshal_top E A t v = marshal A (200 + 12 * vsize 100 v) t v.
+Proof. unfold marshal_top. reflexivity. Qed.
+
 Lemma cbor_marshal_is_with E A t v :
   cbor_marshal E A t v = cbor_marshal_with (200 + 12 * vsize 100 v) A t v.
 Proof. unfold cbor_marshal, cbor_marshal_with, marshal_top. reflexivity. Qed.
@@ -640,8 +643,9 @@ Theorem cbor_marshal_total : forall E A t v ts,
   marshal_top E A t v = MOk ts -> cbor_toks_ok ts = true ->
   exists n, ts = flatten n /\ cbor_marshal E A t v = Some (rfc_enc n).
 Proof.
-  intros E A t v ts H Hc. destruct (marshal_tree A _ t v ts H Hc) as (n & -> & Henc & _).
-  exists n. split; [reflexivity|]. unfold cbor_marshal. rewrite H. apply cbor_encode_flatten. exact Henc.
+  intros E A t v ts H Hc. unfold cbor_marshal. rewrite H. rewrite marshal_top_eq in H.
+  destruct (marshal_tree A _ t v ts H Hc) as (n & -> & Henc & _).
+  exists n. split; [reflexivity|]. apply cbor_encode_flatten. exact Henc.
 Qed.
 Print Assumptions cbor_marshal_total.
 
@@ -692,6 +696,16 @@ Qed.
 Definition cbor_ok (E : tenv) (A : atlas) (t : gtype) (v : gval) : bool :=
   match marshal_top E A t v with MOk ts => cbor_toks_ok ts | _ => true end.
 
+Lemma cbor_marshal_inv E A t v bs :
+  cbor_marshal E A t v = Some bs ->
+  exists ts, marshal A (200 + 12 * vsize 100 v) t v = MOk ts /\ cbor_encode ts = Some bs /\
+             cbor_ok E A t v = cbor_toks_ok ts.
+Proof.
+  unfold cbor_marshal, cbor_ok. rewrite marshal_top_eq.
+  generalize (200 + 12 * vsize 100 v)%nat. intros f.
+  destruct (marshal A f t v) as [ts| |]; try discriminate. intros H. exists ts. auto.
+Qed.
+
 (* C01 at the byte level, CBOR: marshalling to CBOR and unmarshalling the bytes into a zero
    value of the same type with the same atlas yields a round-trip-equal value; the item is
    the whole input and all its tokens are consumed. *)
@@ -701,10 +715,11 @@ Theorem cbor_end_to_end : forall E A t v bs,
   cbor_marshal E A t v = Some bs ->
   exists n v', cbor_unmarshal E A t bs = Some (UTDone n v') /\ req E A t v v' /\ wt E A t v'.
 Proof.
-  intros E A t v bs Hwf Hcr Hw Hd Hc Hm. unfold cbor_marshal, cbor_ok in *.
-  destruct (marshal_top E A t v) as [ts| |] eqn:M; try discriminate.
-  unfold marshal_top in M.
+  intros E A t v bs Hwf Hcr Hw Hd Hc Hm.
+  destruct (cbor_marshal_inv E A t v bs Hm) as (ts & M & Hm' & Hc'). rewrite Hc' in Hc. clear Hm Hc'.
+  revert M. generalize (200 + 12 * vsize 100 v)%nat. intros f0 M.
   destruct (cbor_core E A t v _ ts Hwf Hcr Hw Hd M Hc) as (bs' & v' & He & Hu & Hr & Hw' & _).
+  rename Hm' into Hm.
   rewrite Hm in He. inversion He; subst bs'. exists (length ts), v'. auto.
 Qed.
 Print Assumptions cbor_end_to_end.
@@ -724,20 +739,542 @@ Theorem cbor_remarshal : forall E A t v bs,
     (marshal_top E A t v' <> MFuel -> cbor_marshal E A t v' = Some bs) /\
     ((vsize 100 v <= vsize 100 v')%nat -> cbor_marshal E A t v' = Some bs).
 Proof.
-  intros E A t v bs Hwf Hcr Ho Hw Hd Hrv Hc Hm. unfold cbor_marshal, cbor_ok in Hm, Hc.
-  destruct (marshal_top E A t v) as [ts| |] eqn:M; try discriminate.
-  unfold marshal_top in M.
+  intros E A t v bs Hwf Hcr Ho Hw Hd Hrv Hc Hm.
+  destruct (cbor_marshal_inv E A t v bs Hm) as (ts & M & Hm' & Hc'). rewrite Hc' in Hc. clear Hm Hc'.
+  rename Hm' into Hm.
+  assert (G : exists f0, f0 = (200 + 12 * vsize 100 v)%nat) by eauto. destruct G as [f0 Hf0].
+  rewrite <- Hf0 in *.
   destruct (cbor_core E A t v _ ts Hwf Hcr Hw Hd M Hc) as (bs' & v' & He & Hu & Hr & Hw' & Hrm).
   rewrite Hm in He. inversion He; subst bs'. exists (length ts), v'.
   split; [exact Hu|]. split; [exact Hr|].
   specialize (Hrm Ho Hrv).
-  assert (W : forall f, (200 + 12 * vsize 100 v <= f)%nat -> cbor_marshal_with f A t v' = Some bs).
+  assert (W : forall f, (f0 <= f)%nat -> cbor_marshal_with f A t v' = Some bs).
   { intros f Hle. unfold cbor_marshal_with. rewrite (Hrm f Hle). exact Hm. }
   split; [exact W|]. split.
-  - intros Hnf. unfold cbor_marshal. unfold marshal_top in *.
-    set (f' := (200 + 12 * vsize 100 v')%nat) in *.
-    pose proof (marshal_fuel_mono A f' (Nat.max f' (200 + 12 * vsize 100 v)) t v' Hnf ltac:(lia)) as Hmono.
+  - unfold cbor_marshal. rewrite marshal_top_eq.
+    generalize (200 + 12 * vsize 100 v')%nat. intros f' Hnf.
+    pose proof (marshal_fuel_mono A f' (Nat.max f' f0) t v' Hnf ltac:(lia)) as Hmono.
     rewrite Hrm in Hmono by lia. rewrite <- Hmono. exact Hm.
   - intros Hle. rewrite cbor_marshal_is_with. apply W. lia.
 Qed.
 Print Assumptions cbor_remarshal.
+
+(* ---------- a non-trivial CBOR instance --------------------------------------------- *)
+(* The instance of RoundTripProof.v: a tagged struct with an omitempty string, fields behind
+   an embedded pointer (one of them a pointer to a tagged struct), a map (whose entries come
+   back in sorted order), a byte array, a nil slice (omitted) and an untyped slot holding a
+   slice of a tagged struct, a negative integer and a map. *)
+Definition e2e_cbor_bytes : bytes :=
+  [199; 165; 97; 110; 24; 200; 97; 105; 201; 161; 98; 111; 107; 245; 97; 109; 162; 97; 97; 32; 97; 98; 2;
+   97; 98; 67; 1; 2; 3; 97; 120; 131; 201; 161; 98; 111; 107; 244; 34; 161; 97; 107; 246].
+
+Example e2e_cbor_hypotheses :
+  atlas_wf ex_E ex_A = true /\ cranked ex_A 3 = true /\ omit_ok ex_A = true /\
+  wtb ex_E ex_A (GStruct 1) ex_v = true /\ domb ex_E ex_A (GStruct 1) ex_v = true /\ rmv ex_v = true /\
+  cbor_ok ex_E ex_A (GStruct 1) ex_v = true.
+Proof. vm_compute. repeat split; reflexivity. Qed.
+
+Example e2e_cbor_conclusion :
+  cbor_marshal ex_E ex_A (GStruct 1) ex_v = Some e2e_cbor_bytes /\
+  cbor_unmarshal ex_E ex_A (GStruct 1) e2e_cbor_bytes = Some (UTDone 30 ex_v') /\
+  cbor_marshal ex_E ex_A (GStruct 1) ex_v' = Some e2e_cbor_bytes.
+Proof. vm_compute. repeat split; reflexivity. Qed.
+
+(* ====================================================================== *)
+(* Part 4.  JSON end to end                                                 *)
+(* ====================================================================== *)
+
+(* JSON carries no tags.  The JSON theorems are obtained by applying the token round trip
+   to the atlas stripped of its tags: marshalling with it produces the same tokens without
+   tags, and on untagged tokens the unmarshaller behaves the same with either atlas. *)
+
+Definition untag_entry (e : atlas_entry) : atlas_entry := AE (ae_type e) None (ae_kind e).
+Definition untag_atlas (A : atlas) : atlas := Atlas (map untag_entry (a_entries A)) (a_mode A).
+Definition untag_tok (t : token) : token := Tok (tv t) None.
+
+Lemma find_entry_untag es t :
+  find_entry (map untag_entry es) t = option_map untag_entry (find_entry es t).
+Proof.
+  induction es as [|e es IH]; [reflexivity|]. cbn [map find_entry untag_entry ae_type] in *.
+  destruct (gtype_eqb (ae_type e) t); [reflexivity|exact IH].
+Qed.
+
+Lemma atlas_get_untag A t : atlas_get (untag_atlas A) t = option_map untag_entry (atlas_get A t).
+Proof. apply find_entry_untag. Qed.
+
+Lemma find_tag_untag es g : find_tag (map untag_entry es) g = None.
+Proof. induction es as [|e es IH]; [reflexivity|]. cbn. exact IH. Qed.
+
+Lemma atlas_by_tag_untag A g : atlas_by_tag (untag_atlas A) g = None.
+Proof. apply find_tag_untag. Qed.
+
+Lemma map_stringer_untag A kt : map_stringer (untag_atlas A) kt = map_stringer A kt.
+Proof.
+  unfold map_stringer. rewrite atlas_get_untag.
+  destruct (atlas_get A kt) as [[ty tg k]|]; reflexivity.
+Qed.
+
+(* ---------- marshalling with the stripped atlas ------------------------------------ *)
+
+Definition mmap (r : mres) : mres :=
+  match r with MOk ts => MOk (map untag_tok ts) | MErr ts => MErr (map untag_tok ts) | MFuel => MFuel end.
+
+Lemma mmap_mprepend p r : mmap (mprepend p r) = mprepend (map untag_tok p) (mmap r).
+Proof. destruct r; cbn; rewrite ?map_app; reflexivity. Qed.
+
+Lemma mmap_mseq r k k' :
+  (forall ts, mmap (k ts) = k' (map untag_tok ts)) ->
+  mmap (mseq r k) = mseq (mmap r) k'.
+Proof. intros H. destruct r; cbn; auto. Qed.
+
+Lemma untag_retag tg ts : map untag_tok (retag tg ts) = map untag_tok ts.
+Proof. destruct tg as [g|]; [|reflexivity]. destruct ts as [|[v t0] r]; reflexivity. Qed.
+
+Lemma mmap_wrap_transform tg r : mmap (wrap_transform tg r) = wrap_transform None (mmap r).
+Proof. destruct r; cbn [wrap_transform mmap retag]; rewrite ?untag_retag; reflexivity. Qed.
+
+Lemma mmap_wrap_union nm r : mmap (wrap_union nm r) = wrap_union nm (mmap r).
+Proof. destruct r; cbn [wrap_union mmap]; rewrite ?map_app; try rewrite map_app; reflexivity. Qed.
+
+Section MUntag.
+  Variable A : atlas.
+  Notation A0 := (untag_atlas A).
+
+  Definition U_m f := forall t v, marshal A0 f t v = mmap (marshal A f t v).
+  Definition U_bare f := forall t v, marshal_bare A0 f t v = mmap (marshal_bare A f t v).
+  Definition U_kind f := forall t v, marshal_kind A0 f t v = mmap (marshal_kind A f t v).
+  Definition U_items f := forall et l, marshal_items A0 f et l = mmap (marshal_items A f et l).
+  Definition U_map f := forall mode kt vt o, marshal_map A0 f mode kt vt o = mmap (marshal_map A f mode kt vt o).
+  Definition U_entries f := forall vt es, marshal_entries A0 f vt es = mmap (marshal_entries A f vt es).
+  Definition U_entry f := forall e v, marshal_entry A0 f (untag_entry e) v = mmap (marshal_entry A f e v).
+  Definition U_fields f := forall fields v, marshal_fields A0 f fields v = mmap (marshal_fields A f fields v).
+
+  Lemma untag_all : forall f,
+    U_m f /\ U_bare f /\ U_kind f /\ U_items f /\ U_map f /\ U_entries f /\ U_entry f /\ U_fields f.
+  Proof.
+    induction f as [|f (IHm & IHb & IHk & IHi & IHmp & IHes & IHe & IHf)].
+    - repeat split; intro; intros; reflexivity.
+    - repeat split.
+      + intros t v. rewrite !marshal_S. destruct (peel t) as [n base].
+        destruct (deref n v); [apply IHb|reflexivity].
+      + intros t v. rewrite !marshal_bare_S. destruct (is_unnamed_prim t); [apply IHk|].
+        rewrite atlas_get_untag. destruct (atlas_get A t) as [e|]; cbn [option_map]; [apply IHe|apply IHk].
+      + intros t v. rewrite !marshal_kind_S.
+        destruct t; destruct v; try reflexivity;
+          try (destruct o as [x|]; try reflexivity);
+          try (rewrite mmap_mprepend, <- IHi; reflexivity);
+          try (apply IHmp);
+          try (destruct x as [dt dv]; apply IHm).
+      + intros et l. rewrite !marshal_items_S. destruct l as [|x r]; [reflexivity|].
+        rewrite IHm. symmetry. apply mmap_mseq. intros ts. rewrite mmap_mprepend, IHi. reflexivity.
+      + intros mode kt vt o. rewrite !marshal_map_S, map_stringer_untag.
+        destruct (map_stringer A kt) as [str|]; [|reflexivity]. cbv zeta.
+        destruct (existsb _ _); [reflexivity|]. destruct o; [|reflexivity].
+        rewrite mmap_mprepend, <- IHes. reflexivity.
+      + intros vt es. rewrite !marshal_entries_S. destruct es as [|[k x] r]; [reflexivity|].
+        rewrite mmap_mprepend. f_equal. rewrite IHm. symmetry. apply mmap_mseq.
+        intros ts. rewrite mmap_mprepend, IHes. reflexivity.
+      + intros e v. rewrite !marshal_entry_S. cbn [untag_entry ae_kind ae_tag ae_type].
+        destruct (ae_kind e) as [fields|kind wire|members|mode].
+        * cbv zeta. rewrite mmap_mprepend, <- IHf. reflexivity.
+        * destruct (tr_fwd kind v); [|reflexivity]. rewrite mmap_wrap_transform, IHm. reflexivity.
+        * destruct v; try reflexivity. destruct o as [[mt mv]|]; [|reflexivity].
+          destruct (find _ members) as [[nm ty]|]; [|reflexivity].
+          rewrite atlas_get_untag. destruct (atlas_get A mt) as [me|]; cbn [option_map]; [|reflexivity].
+          rewrite mmap_wrap_union, IHe. reflexivity.
+        * destruct (strip_named (ae_type e)); try reflexivity. destruct v; try reflexivity. apply IHmp.
+      + intros fields v. rewrite !marshal_fields_S. destruct fields as [|fe r]; [reflexivity|].
+        destruct (traverse (fe_route fe) v); [|apply IHf].
+        rewrite mmap_mprepend. f_equal. rewrite IHm. symmetry. apply mmap_mseq.
+        intros ts. rewrite mmap_mprepend, IHf. reflexivity.
+  Qed.
+
+  Theorem marshal_untag : forall f t v ts,
+    marshal A f t v = MOk ts -> marshal A0 f t v = MOk (map untag_tok ts).
+  Proof. intros f t v ts H. destruct (untag_all f) as (Hm & _). rewrite Hm, H. reflexivity. Qed.
+End MUntag.
+
+(* ---------- well-typedness and well-formedness do not look at tags ------------------- *)
+
+Lemma forallb_ext_Forall {X} (p q : X -> bool) l :
+  Forall (fun x => p x = q x) l -> forallb p l = forallb q l.
+Proof. induction 1; cbn; congruence. Qed.
+
+Lemma wtb_untag E A : forall v t, wtb E (untag_atlas A) t v = wtb E A t v.
+Proof.
+  induction v as [b|z|b|s|o|s| |l IH|l IH| |es IH| |x IH| |dt x IH|l IH| ] using gval_ind'; intros t;
+    try (cbn [wtb]; destruct (strip_named t); reflexivity).
+  - cbn [wtb]. destruct (strip_named t); try reflexivity. apply forallb_ext_Forall.
+    eapply Forall_impl; [|exact IH]. intros x Hx. apply Hx.
+  - cbn [wtb]. destruct (strip_named t); try reflexivity. f_equal. apply forallb_ext_Forall.
+    eapply Forall_impl; [|exact IH]. intros x Hx. apply Hx.
+  - cbn [wtb]. destruct (strip_named t); try reflexivity.
+    unfold stringer_ok. rewrite map_stringer_untag. f_equal. f_equal. apply forallb_ext_Forall.
+    eapply Forall_impl; [|exact IH]. intros [k x] [Hk Hx]. cbn [fst snd] in *. rewrite Hk, Hx. reflexivity.
+  - cbn [wtb]. destruct (strip_named t); try reflexivity. apply IH.
+  - cbn [wtb]. destruct (strip_named t); try reflexivity; apply IH.
+  - rewrite !wt_struct_eq. destruct (strip_named t); try reflexivity.
+    destruct (env_fields E id) as [fts|]; [|reflexivity].
+    revert fts. induction IH as [|x xs Hx _ IHxs]; intros [|ft fts]; cbn [wt_fields]; try reflexivity.
+    rewrite Hx, IHxs. reflexivity.
+Qed.
+
+Lemma not_transform_untag A t : not_transform_type (untag_atlas A) t = not_transform_type A t.
+Proof. unfold not_transform_type. rewrite atlas_get_untag. destruct (atlas_get A t); reflexivity. Qed.
+
+Lemma member_wf_untag A m : member_wf (untag_atlas A) m = member_wf A m.
+Proof. unfold member_wf. rewrite atlas_get_untag. destruct (atlas_get A (snd m)); reflexivity. Qed.
+
+Lemma entry_wf_untag E A e : entry_wf E A e = true -> entry_wf E (untag_atlas A) (untag_entry e) = true.
+Proof.
+  unfold entry_wf. cbn [untag_entry ae_kind ae_type ae_tag].
+  destruct (ae_kind e) as [fields|kind wire|members|mode]; try (intros H; exact H).
+  - rewrite not_transform_untag. intros H. rewrite !andb_true_iff in H. destruct H as [[[H1 H2] H3] _].
+    rewrite H1, H2, H3. reflexivity.
+  - intros H. rewrite !andb_true_iff in *. destruct H as [[H1 H2] H3]. repeat split; auto.
+    rewrite <- H3. apply forallb_ext_Forall. apply Forall_forall. intros m _. apply member_wf_untag.
+Qed.
+
+Lemma atlas_wf_untag E A : atlas_wf E A = true -> atlas_wf E (untag_atlas A) = true.
+Proof.
+  unfold atlas_wf. cbn [untag_atlas a_entries].
+  rewrite !forallb_forall. intros H e0 He. apply in_map_iff in He. destruct He as (e & <- & He).
+  apply entry_wf_untag. apply H. exact He.
+Qed.
+
+(* on untagged tokens the unmarshaller behaves alike with the stripped atlas and the real one *)
+Definition notag : option Z -> Prop := fun tg => tg = None.
+
+Corollary unmarshal_respell_untag : forall E A f t cur ts ts' v rest,
+  Forall2 (trel notag) ts ts' -> unmarshal E (untag_atlas A) f t cur ts = UOk v rest ->
+  exists rest', unmarshal E A f t cur ts' = UOk v rest' /\ Forall2 (trel notag) rest rest'.
+Proof.
+  intros E A. apply (unmarshal_respell E (untag_atlas A) A notag).
+  - intros t e G. rewrite atlas_get_untag in G. destruct (atlas_get A t) as [e0|]; [|discriminate].
+    cbn in G. inversion G; subst. exists e0. split; [reflexivity|]. repeat split.
+    intros g Hg. discriminate Hg.
+  - intros t G. rewrite atlas_get_untag in G. destruct (atlas_get A t); [discriminate|reflexivity].
+  - intros g Hg. discriminate Hg.
+  - reflexivity.
+Qed.
+
+(* round-trip equality does not look at tags either *)
+Lemma req_untag E A : forall t v v', req E (untag_atlas A) t v v' -> req E A t v v'.
+Proof.
+  fix IH 4. intros t v v' H. destruct H as [t v Ha|t et l l' Hs HF|t n et l l' Hs HF|t kt vt es es' Hs Hl Hes
+                                         |t x x' Hx|t x Hn|t dt x x' Hx|t dt x Hn|t k z|t b|t n s
+                                         |t e fields fs fs' Hg Hk Hf|t e kind wire v v' w w' Hg Hk Hd Hd' Hw Hw' Hr].
+  - apply req_atom; exact Ha.
+  - eapply req_slice; [exact Hs|]. revert l l' HF. fix IHl 3. intros l l' HF.
+    destruct HF as [|x y l l' Hxy HF]; constructor; [apply IH; exact Hxy|apply IHl; exact HF].
+  - eapply req_arr; [exact Hs|]. revert l l' HF. fix IHl 3. intros l l' HF.
+    destruct HF as [|x y l l' Hxy HF]; constructor; [apply IH; exact Hxy|apply IHl; exact HF].
+  - eapply req_map; [exact Hs|exact Hl|]. intros k x Hin.
+    destruct (Hes k x Hin) as (x' & Hin' & Hr). exists x'. split; [exact Hin'|apply IH; exact Hr].
+  - apply req_ptr. apply IH; exact Hx.
+  - apply req_ptr_null; exact Hn.
+  - apply req_any. apply IH; exact Hx.
+  - apply req_any_null; exact Hn.
+  - apply req_any_num.
+  - apply req_any_f32.
+  - apply req_any_bytearr.
+  - rewrite atlas_get_untag in Hg. destruct (atlas_get A t) as [e0|] eqn:G; [|discriminate].
+    cbn [option_map] in Hg. inversion Hg; subst e. cbn [untag_entry ae_kind] in Hk.
+    eapply req_struct; [exact G|exact Hk|]. intros fe Hin Hig.
+    destruct (Hf fe Hin Hig) as (H1 & H2 & H3). split; [|split; [exact H2|exact H3]].
+    intros fv Ht Ho. destruct (H1 fv Ht Ho) as (fv' & Ht' & Hr). exists fv'. split; [exact Ht'|apply IH; exact Hr].
+  - rewrite atlas_get_untag in Hg. destruct (atlas_get A t) as [e0|] eqn:G; [|discriminate].
+    cbn [option_map] in Hg. inversion Hg; subst e. cbn [untag_entry ae_kind] in Hk.
+    eapply req_transform; [exact G|exact Hk|exact Hd|exact Hd'|exact Hw|exact Hw'|apply IH; exact Hr].
+Qed.
+
+(* ---------- JSON marshal / unmarshal -------------------------------------------------- *)
+
+(* Unmarshal from JSON text: the JSON decoder reads one value; only whitespace may follow
+   (the encoder writes its Line string once more after a top-level container). *)
+Definition json_unmarshal (E : tenv) (A : atlas) (t : gtype) (bs : bytes) : option utop :=
+  match jdec_run bs with
+  | JDOk toks rest => if forallb is_ws rest then Some (unmarshal_top E A t toks) else None
+  | _ => None
+  end.
+
+Section JsonE2E.
+  Variable sh : Z -> list Z * Z.          (* the shortest-digits oracle *)
+  Variable float_okb : Z -> bool.         (* floats the round trip is claimed for *)
+  Variable fnorm : Z -> tval.             (* how a float's text reads back *)
+  Definition float_okP : Z -> Prop := fun b => float_okb b = true.
+  (* the float oracle hypothesis of JsonEncProof.v / TranscodeProof.v *)
+  Hypothesis Hflt : forall b rest, float_okP b -> terminator_ok rest ->
+    exists first more, emit_float sh b = Some [first :: more] /\
+      (first = 45 \/ is_digit first = true) /\
+      is_leaf (fnorm b) = true /\
+      dec_number first (more ++ rest) = inl (leaf_tok (fnorm b), rest) /\
+      match fnorm b with VInt _ | VUint _ | VFlt _ => True | _ => False end.
+
+  Definition json_encode (o : jopts) (ts : list token) : option bytes :=
+    match jenc_tokens sh o ts with
+    | JFinished chunks n => if Nat.eqb n (length ts) then Some (concat chunks) else None
+    | _ => None
+    end.
+
+  (* Marshal to JSON text: the object marshaller driving the JSON encoder. *)
+  Definition json_marshal (o : jopts) (E : tenv) (A : atlas) (t : gtype) (v : gval) : option bytes :=
+    match marshal_top E A t v with MOk ts => json_encode o ts | _ => None end.
+
+  (* a float whose shortest text reads back as the same float (not as an integer: "1" for
+     1.0 would come back as Int 1) *)
+  Definition fstable (b : Z) : bool := match fnorm b with VFlt b' => b' =? b | _ => false end.
+
+  (* tokens JSON represents faithfully: no byte strings; strings are valid UTF-8; integers
+     within int64 / uint64; floats covered by the oracle and stable *)
+  Definition json_tok_ok (t : token) : bool :=
+    match tv t with
+    | Byt _ => false
+    | Str s => bytes_okb s && valid_utf8 s
+    | Int i => (min_int64 <=? i) && (i <=? max_int64)
+    | Uint u => (0 <=? u) && (u <=? max_uint64)
+    | Flt b => float_okb b && fstable b
+    | _ => true
+    end.
+  Definition json_toks_ok (ts : list token) : bool := forallb json_tok_ok ts.
+
+  Lemma toks_json_ok n : json_toks_ok (flatten n) = true -> plain_string_keys n -> json_ok float_okP n.
+  Proof.
+    unfold json_toks_ok.
+    induction n as [tg v Hleaf|tg d items IH|tg d es IH] using tnode_ind'; intros Ht Hp.
+    - assert (Ht' : json_tok_ok (Tok (leaf_tok v) tg) = true).
+      { rewrite flatten_leaf in Ht by (destruct v; try contradiction; reflexivity).
+        cbn [forallb] in Ht. apply andb_prop in Ht. apply Ht. }
+      clear Ht. unfold json_tok_ok in Ht'. cbn [tv] in Ht'.
+      destruct v; try contradiction; cbn [leaf_tok] in Ht'; cbn [json_ok]; try exact I; try lia;
+        try discriminate.
+      + apply andb_prop in Ht'. apply bytes_okb_ok. apply Ht'.
+      + apply andb_prop in Ht'. apply Ht'.
+    - apply forallb_flatten_arr in Ht. destruct Ht as [_ H2].
+      cbn [plain_string_keys] in Hp. apply fold_pair_Forall in Hp.
+      cbn [json_ok]. apply fold_pair_Forall. clear -IH H2 Hp.
+      induction IH as [|x xs Hx1 _ IHxs]; [constructor|].
+      inversion H2; inversion Hp; subst. constructor; auto.
+    - apply forallb_flatten_map in Ht. destruct Ht as [_ H2].
+      cbn [plain_string_keys] in Hp.
+      apply (fold_pair_Forall (fun kv => match fst kv with Node None (VStr _) => True | _ => False end
+                                         /\ plain_string_keys (snd kv))) in Hp.
+      cbn [json_ok].
+      apply (fold_pair_Forall (fun kv => match fst kv with Node _ (VStr k) => CborSpec.bytes_ok k | _ => False end
+                                         /\ json_ok float_okP (snd kv))).
+      clear -IH H2 Hp.
+      induction IH as [|[k w] xs [_ Hw] _ IHxs]; [constructor|].
+      inversion H2 as [|? ? [T1 T2] ?]; inversion Hp as [|? ? [P1 P2] ?]; subst. cbn [fst snd] in *.
+      constructor; [|apply IHxs; assumption]. cbn [fst snd]. split; [|apply Hw; assumption].
+      destruct k as [[g|] kv]; try contradiction. destruct kv; try contradiction.
+      cbn [flatten forallb] in T1. unfold json_tok_ok in T1. cbn [tv] in T1.
+      apply andb_prop in T1. destruct T1 as [T1 _]. apply andb_prop in T1. apply bytes_okb_ok. apply T1.
+  Qed.
+
+  (* the JSON reading of such tokens is a respelling of the untagged tokens *)
+  Lemma jnorm_rel ts : json_toks_ok ts = true ->
+    Forall2 (trel notag) (map untag_tok ts) (map (jnorm_tok fnorm) ts).
+  Proof.
+    unfold json_toks_ok.
+    induction ts as [|[v tg] ts IH]; cbn [forallb map]; intros H; [constructor|].
+    apply andb_true_iff in H. destruct H as [H1 H2]. constructor; [|apply IH; exact H2].
+    unfold trel, untag_tok, jnorm_tok, json_tok_ok, notag in *. cbn [tv tag] in *.
+    split; [reflexivity|]. split; [reflexivity|].
+    destruct v; try apply vr_refl; try discriminate.
+    - apply vr_map. auto.
+    - apply vr_arr.
+    - apply andb_prop in H1. destruct H1 as [_ H1]. rewrite (coerce_valid_utf8 _ H1). apply vr_refl.
+    - unfold max_int64. destruct (Z.leb_spec u 9223372036854775807); [|apply vr_refl].
+      apply vr_ui. unfold max_i64. lia.
+    - apply andb_prop in H1. destruct H1 as [_ H1]. unfold fstable in H1.
+      destruct (fnorm bits); try discriminate. cbn [leaf_tok].
+      replace bits0 with bits by lia. apply vr_refl.
+  Qed.
+
+  (* the token-level core *)
+  Lemma json_core o E A t v f ts :
+    ws_opts o ->
+    atlas_wf E A = true -> cranked A 3 = true -> wt E A t v -> domb E (untag_atlas A) t v = true ->
+    marshal A f t v = MOk ts -> json_toks_ok ts = true ->
+    exists bs v',
+      json_encode o ts = Some bs /\
+      json_unmarshal E A t bs = Some (UTDone (length ts) v') /\
+      req E A t v v' /\ wt E A t v'.
+  Proof.
+    intros Ho Hwf Hcr Hw Hd H Hc.
+    destruct (marshal_wf A f t v ts H) as (n & -> & Hp & Hx).
+    pose proof (toks_json_ok n Hc Hp) as Hn.
+    destruct (json_encode_parses sh float_okP fnorm Hflt o n [] Ho Hn I) as (chunks & Hrun & fuel & Hpj).
+    rewrite !app_nil_r in Hpj.
+    pose proof (jdec_complete fuel _ _ _ (strict_implies_lenient _ _ _ _ Hpj)) as Hdec.
+    rewrite (flatten_jnorm sh float_okP fnorm Hflt n Hn) in Hdec.
+    pose proof (marshal_untag A f t v _ H) as H0.
+    assert (Hw0 : wt E (untag_atlas A) t v) by (unfold wt; rewrite wtb_untag; exact Hw).
+    destruct (roundtrip_general E (untag_atlas A) t v f _ (atlas_wf_untag E A Hwf) Hw0 Hd H0)
+      as (v' & Hreq & Hw' & [F HF] & _).
+    exists (concat chunks), v'. split; [|split; [|split; [apply req_untag; exact Hreq|]]].
+    - unfold json_encode. rewrite Hrun, Nat.eqb_refl. reflexivity.
+    - unfold json_unmarshal. rewrite Hdec.
+      pose proof (top_tail_ws o n Ho) as Hws. unfold ws_bytes in Hws. rewrite Hws. f_equal.
+      rewrite <- (map_length (jnorm_tok fnorm) (flatten n)).
+      apply unmarshal_top_done; [exact Hwf|exact Hcr|].
+      exists F. intros f' Hle. specialize (HF f' [] Hle). rewrite app_nil_r in HF.
+      destruct (unmarshal_respell_untag E A f' t _ _ _ v' [] (jnorm_rel _ Hc) HF) as (rest' & U & Hr).
+      inversion Hr; subst. exact U.
+    - unfold wt in *. rewrite wtb_untag in Hw'. exact Hw'.
+  Qed.
+
+  (* the side condition: the tokens the marshaller emits are ones JSON represents faithfully *)
+  Definition json_repr (E : tenv) (A : atlas) (t : gtype) (v : gval) : bool :=
+    match marshal_top E A t v with MOk ts => json_toks_ok ts | _ => true end.
+
+  Lemma json_marshal_inv o E A t v bs :
+    json_marshal o E A t v = Some bs ->
+    exists ts, marshal A (200 + 12 * vsize 100 v) t v = MOk ts /\ json_encode o ts = Some bs /\
+               json_repr E A t v = json_toks_ok ts.
+  Proof.
+    unfold json_marshal, json_repr. rewrite marshal_top_eq.
+    generalize (200 + 12 * vsize 100 v)%nat. intros f.
+    destruct (marshal A f t v) as [ts| |]; try discriminate. intros H. exists ts. auto.
+  Qed.
+
+  (* the JSON encoder accepts what the marshaller produces for such values *)
+  Theorem json_marshal_total : forall o E A t v ts,
+    ws_opts o -> marshal_top E A t v = MOk ts -> json_toks_ok ts = true ->
+    exists bs, json_marshal o E A t v = Some bs.
+  Proof.
+    intros o E A t v ts Ho H Hc. unfold json_marshal. rewrite H. rewrite marshal_top_eq in H.
+    destruct (marshal_wf A _ t v ts H) as (n & -> & Hp & Hx).
+    pose proof (toks_json_ok n Hc Hp) as Hn.
+    destruct (json_encode_parses sh float_okP fnorm Hflt o n [] Ho Hn I) as (chunks & Hrun & _).
+    exists (concat chunks). unfold json_encode. rewrite Hrun, Nat.eqb_refl. reflexivity.
+  Qed.
+
+  (* C01 at the byte level, JSON.  [jdomb]: the round-trip domain for the atlas without its
+     tags, i.e. untyped slots hold native values only (see [jdomb_any] below). *)
+  Theorem json_end_to_end : forall o E A t v bs,
+    ws_opts o ->
+    atlas_wf E A = true -> cranked A 3 = true ->
+    wt E A t v -> domb E (untag_atlas A) t v = true -> json_repr E A t v = true ->
+    json_marshal o E A t v = Some bs ->
+    exists n v', json_unmarshal E A t bs = Some (UTDone n v') /\ req E A t v v' /\ wt E A t v'.
+  Proof.
+    intros o E A t v bs Ho Hwf Hcr Hw Hd Hc Hm.
+    destruct (json_marshal_inv o E A t v bs Hm) as (ts & M & Hm' & Hc'). rewrite Hc' in Hc. clear Hm Hc'.
+    revert M. generalize (200 + 12 * vsize 100 v)%nat. intros f0 M.
+    destruct (json_core o E A t v _ ts Ho Hwf Hcr Hw Hd M Hc) as (bs' & v' & He & Hu & Hr & Hw').
+    rewrite Hm' in He. inversion He; subst bs'. exists (length ts), v'. auto.
+  Qed.
+End JsonE2E.
+Print Assumptions json_marshal_total.
+Print Assumptions json_end_to_end.
+
+(* what the domain says about untyped slots once the tags are stripped: only native types *)
+Lemma jdomb_any A dt : RoundTripProof.any_ok (untag_atlas A) dt = native_slot A dt.
+Proof.
+  unfold RoundTripProof.any_ok, native_slot, tagged_slot. rewrite atlas_get_untag.
+  destruct (is_unnamed_prim dt); [reflexivity|].
+  destruct (atlas_get A dt) as [e|]; cbn [option_map negb andb orb].
+  - cbn [untag_entry ae_kind ae_tag]. destruct (ae_kind e); reflexivity.
+  - rewrite orb_false_r. reflexivity.
+Qed.
+
+(* ---------- the float-free unconditional instance ---------------------------------- *)
+
+Definition no_floats : Z -> bool := fun _ => false.
+Definition no_fnorm : Z -> tval := fun _ => VNull.
+
+Lemma no_floats_hyp sh : forall b rest, float_okP no_floats b -> terminator_ok rest ->
+  exists first more, emit_float sh b = Some [first :: more] /\
+    (first = 45 \/ is_digit first = true) /\
+    is_leaf (no_fnorm b) = true /\
+    dec_number first (more ++ rest) = inl (leaf_tok (no_fnorm b), rest) /\
+    match no_fnorm b with VInt _ | VUint _ | VFlt _ => True | _ => False end.
+Proof. intros b rest H. discriminate H. Qed.
+
+(* no float tokens at all: no oracle, no hypothesis *)
+Definition json_repr_ff : tenv -> atlas -> gtype -> gval -> bool := json_repr no_floats no_fnorm.
+
+Theorem json_end_to_end_float_free : forall sh o E A t v bs,
+  ws_opts o ->
+  atlas_wf E A = true -> cranked A 3 = true ->
+  wt E A t v -> domb E (untag_atlas A) t v = true -> json_repr_ff E A t v = true ->
+  json_marshal sh o E A t v = Some bs ->
+  exists n v', json_unmarshal E A t bs = Some (UTDone n v') /\ req E A t v v' /\ wt E A t v'.
+Proof.
+  intros sh. exact (json_end_to_end sh no_floats no_fnorm (no_floats_hyp sh)).
+Qed.
+Print Assumptions json_end_to_end_float_free.
+
+(* ---------- a non-trivial JSON instance ---------------------------------------------- *)
+(* The JSON-representable part of the CBOR instance: no byte array; the untyped slot holds
+   native values only (a slice of a non-ASCII string, a negative integer and a map).  The
+   typed pointer to the tagged struct stays: its tag is dropped and not needed. *)
+Definition jex_E : tenv :=
+  [(1, [GStr; GPtr (GStruct 2); GMap GStr (GNum I32); GSlice GF32; GAny]);
+   (2, [GNum U8; GPtr (GStruct 3)]);
+   (3, [GBool])].
+Definition jex_A : atlas :=
+  Atlas [AE (GStruct 1) (Some 7)
+            (EStruct [FE [115] [0%nat] GStr true false;
+                      FE [110] [1%nat; 0%nat] (GNum U8) false false;
+                      FE [105] [1%nat; 1%nat] (GPtr (GStruct 3)) true false;
+                      FE [109] [2%nat] (GMap GStr (GNum I32)) false false;
+                      FE [102] [3%nat] (GSlice GF32) true false;
+                      FE [120] [4%nat] GAny false false;
+                      FE [122] [] GBool false true]);
+         AE (GStruct 3) (Some 9) (EStruct [FE [111; 107] [0%nat] GBool false false])] 0.
+Definition jex_any : gval :=
+  VAny (Some (GSlice GAny, VSlice (Some [VAny (Some (GStr, GVStr [104; 195; 169]));
+                                          VAny (Some (GNum IInt, VNum (-3)));
+                                          VAny (Some (GMap GStr GAny, GVMap (Some [(GVStr [107], VAny None)])))]))).
+Definition jex_v : gval :=
+  VStruct [GVStr [];
+           VPtr (Some (VStruct [VNum 200; VPtr (Some (VStruct [GVBool true]))]));
+           GVMap (Some [(GVStr [98], VNum 2); (GVStr [97], VNum (-1))]);
+           VSlice None;
+           jex_any].
+Definition jex_v' : gval :=
+  VStruct [GVStr [];
+           VPtr (Some (VStruct [VNum 200; VPtr (Some (VStruct [GVBool true]))]));
+           GVMap (Some [(GVStr [97], VNum (-1)); (GVStr [98], VNum 2)]);
+           VSlice None;
+           jex_any].
+Definition jex_sh : Z -> list Z * Z := fun _ => ([], 0).      (* never consulted: no floats *)
+(* {"n":200,"i":{"ok":true},"m":{"a":-1,"b":2},"x":["hé" as UTF-8,-3,{"k":null}]} *)
+Definition jex_compact : bytes :=
+  [123; 34; 110; 34; 58; 50; 48; 48; 44; 34; 105; 34; 58; 123; 34; 111; 107; 34; 58; 116; 114; 117; 101; 125; 44;
+   34; 109; 34; 58; 123; 34; 97; 34; 58; 45; 49; 44; 34; 98; 34; 58; 50; 125; 44; 34; 120; 34; 58; 91;
+   34; 104; 195; 169; 34; 44; 45; 51; 44; 123; 34; 107; 34; 58; 110; 117; 108; 108; 125; 93; 125].
+Definition jex_pretty : bytes :=
+  [123; 10; 32; 34; 110; 34; 58; 32; 50; 48; 48; 44; 10; 32; 34; 105; 34; 58; 32; 123; 10; 32; 32; 34; 111; 107; 34;
+   58; 32; 116; 114; 117; 101; 10; 32; 125; 44; 10; 32; 34; 109; 34; 58; 32; 123; 10; 32; 32; 34; 97; 34; 58; 32; 45;
+   49; 44; 10; 32; 32; 34; 98; 34; 58; 32; 50; 10; 32; 125; 44; 10; 32; 34; 120; 34; 58; 32; 91; 10; 32; 32; 34; 104;
+   195; 169; 34; 44; 10; 32; 32; 45; 51; 44; 10; 32; 32; 123; 10; 32; 32; 32; 34; 107; 34; 58; 32; 110; 117; 108;
+   108; 10; 32; 32; 125; 10; 32; 93; 10; 125; 10].
+
+Example e2e_json_hypotheses :
+  ws_opts (JOpts None []) /\ ws_opts (JOpts (Some [10]) [32]) /\
+  atlas_wf jex_E jex_A = true /\ cranked jex_A 3 = true /\
+  wtb jex_E jex_A (GStruct 1) jex_v = true /\ domb jex_E (untag_atlas jex_A) (GStruct 1) jex_v = true /\
+  json_repr_ff jex_E jex_A (GStruct 1) jex_v = true.
+Proof. vm_compute. repeat split; reflexivity. Qed.
+
+Example e2e_json_conclusion :
+  json_marshal jex_sh (JOpts None []) jex_E jex_A (GStruct 1) jex_v = Some jex_compact /\
+  json_marshal jex_sh (JOpts (Some [10]) [32]) jex_E jex_A (GStruct 1) jex_v = Some jex_pretty /\
+  json_unmarshal jex_E jex_A (GStruct 1) jex_compact = Some (UTDone 25 jex_v') /\
+  json_unmarshal jex_E jex_A (GStruct 1) jex_pretty = Some (UTDone 25 jex_v').
+Proof. vm_compute. repeat split; reflexivity. Qed.
+
+(* outside the JSON domain: an untyped slot holding a value of a tagged struct type comes
+   back as a generic map (in CBOR it comes back as the struct, through its tag) *)
+Definition jex_tagged : gval := VAny (Some (GStruct 3, VStruct [GVBool true])).
+Example json_tagged_slot_refuted :
+  domb jex_E jex_A GAny jex_tagged = true /\ domb jex_E (untag_atlas jex_A) GAny jex_tagged = false /\
+  (exists bs, json_marshal jex_sh (JOpts None []) jex_E jex_A GAny jex_tagged = Some bs /\
+     json_unmarshal jex_E jex_A GAny bs =
+       Some (UTDone 4 (VAny (Some (GMap GStr GAny, GVMap (Some [(GVStr [111; 107], VAny (Some (GBool, GVBool true)))])))))) /\
+  (exists bs, cbor_marshal jex_E jex_A GAny jex_tagged = Some bs /\
+     cbor_unmarshal jex_E jex_A GAny bs = Some (UTDone 4 jex_tagged)).
+Proof. vm_compute. repeat split; try reflexivity; eexists; split; reflexivity. Qed.
